@@ -175,7 +175,7 @@ def run(R, env):
                     hb = shared._body_of_call(prog, hc) if hc[0] == "call" else None
                     if hb is not None and len(hc[2]) == 1 and src(hc[2][0]):
                         oks = [e for e in exits(Ctx(hb)) if e["kind"] == "ok"]
-                        ret_in = bool(oks) and all(e["term"][3][0][2][0] == "param" and e["term"][3][0][2][1] == 1 for e in oks)
+                        ret_in = bool(oks) and all(norm(e["term"][3][0][2]) == norm(("param", 1, "", "")) or (e["term"][3][0][2][0] == "param" and e["term"][3][0][2][1] == 1) for e in oks)
                         good = ret_in and channel_checks(R, prog, hb, "C14.R2", src=lambda x: x[0] == "param" and x[1] == 1)
             R.ob("C14.R1", "%s.%s" % (sec, fld), good, "%s.%s <- %s; expected %s(self.%s%s)" % (sec, fld, why, role, inp, (", " + pfx) if pfx else ""), loc=b.loc(bi, si), fn=b.key)
         extra = set(n for _, n, _ in t[3]) - set(ROUTING[sec])
@@ -408,7 +408,7 @@ def channel_checks(R, prog, b, rule, src=None):
     is_parse = lambda y: y[0] == "call" and y[1] == "core::str::parse" and y[2] and rest(y[2][0]) and "u64" in (y[3][1] if len(y) > 3 and y[3] else "")
     pa = lambda x: x[0] == "call" and x[1] == "std::result::Result::is_ok" and x[2] and is_parse(x[2][0])
     n_pa = 0
-    for c_, path_ in inline_walk(prog, c, 2):
+    for c_, path_ in inline_walk(prog, c, 3):
         for _, atom in c_.atoms():
             n_pa += sum(1 for s_ in subterms(atom[1]) if is_parse(s_))
         n_pa += sum(1 for s_ in subterms(c_.T.return_term()) if is_parse(s_)) if path_ else 0
